@@ -547,11 +547,33 @@ def _hist_run(prop, tier, dims=None):
 HIST_FOCUS_EXTRA = {"C01": ["mut", "msgWide"]}
 
 
+ISOLATION_CFG = "CONSTANTS\n  Calls = {1, 2, 3}\n  Shared = FALSE\nSPECIFICATION Spec\nINVARIANTS TypeOK VerdictIsOwn ExportCase\nCHECK_DEADLOCK FALSE\n"
+
+
+def _isolation_run(prop, tier):
+    return smallfam.run(prop, tier, part=True, mc_module="VerifyIsolation_MC", mc_cfg=ISOLATION_CFG, driver="isolation", trace_module="VerifyIsolation_Trace", trace_consts="",
+                        key_fn=lambda call, evs: "concurrent:tamper=%s" % call["input"]["tamper"], required_actions=("Serialise", "Hash", "Compare"),
+                        assumptions=["sixteen goroutines per scenario, each with inputs and options of its own; a rejected scenario must reproduce when run again on its own (it is concurrent in itself)"],
+                        rule="TLC explores every interleaving of three calls with private buffers (and refutes the shared-buffer counter-model); per altered region, goroutines verify genuine and altered quotes at the same time and every verdict must be the verdict of the goroutine's own input")
+
+
 def _vf_hist(prop, tier):
     t0 = _time.time()
-    _, v1, c1 = verifyfam.run(prop, tier, part=True)
-    _, v2, c2 = _hist_run(prop, tier, dims=verifyfam.CFG[prop]["focus"] + HIST_FOCUS_EXTRA.get(prop, []))
-    return smallfam.combine(prop, tier, [("worlds", v1, c1), ("histories", v2, c2)], t0)
+    parts = []
+    if prop == "C01":       # "no bit ... can change without the quote being rejected" also when other verifications run at the same time
+        _, v3, c3 = _isolation_run(prop, tier)
+        parts.append(("concurrent", v3, c3))
+    try:
+        _, v1, c1 = verifyfam.run(prop, tier, part=True)
+        _, v2, c2 = _hist_run(prop, tier, dims=verifyfam.CFG[prop]["focus"] + HIST_FOCUS_EXTRA.get(prop, []))
+        parts = [("worlds", v1, c1), ("histories", v2, c2)] + parts
+    except C.Infra as e:
+        # the harness runs its cases on several goroutines: when calls that overlap in time disturb each other (a reproduced violation of
+        # the concurrent part), rejections elsewhere need not reproduce one at a time; they are then explained, not an infrastructure failure
+        if not (parts and parts[0][1]):
+            raise
+        C.log("NOTE [%s] %s -- explained by the reproduced violation of the concurrent part" % (prop, str(e).splitlines()[0]))
+    return smallfam.combine(prop, tier, parts, t0)
 
 
 def _c12(prop, tier):
@@ -563,6 +585,8 @@ def _c12(prop, tier):
 
 def _c12_replay(prop, path):
     rp = _json.load(open(path))
+    if "tamper" in (rp.get("case") or {}):
+        return smallfam.replay(prop, path, driver="isolation", trace_module="VerifyIsolation_Trace", trace_consts="")
     if "hist" in (rp.get("case") or {}):
         return smallfam.replay(prop, path, driver="history", trace_module="TdxVerify_Judge", trace_spec="JSpec", trace_consts=HIST_TRACE_CONSTS)
     return verifyfam.replay(prop, path)
